@@ -2,8 +2,9 @@
 import json, subprocess, sys, xml.etree.ElementTree as ET, os, tempfile
 b = json.load(open('/root/.vp/BASELINE.json'))
 fd, path = tempfile.mkstemp(suffix='.xml', dir='/dev/shm'); os.close(fd)
-env = dict(os.environ); env.pop('PJRPC_VERIF', None)
-subprocess.run(f'cd /repo && /venv/bin/python -m pytest -ra -q -p no:cacheprovider --timeout=900 --continue-on-collection-errors --junitxml={path}', shell=True, env=env, stdout=subprocess.DEVNULL, stderr=subprocess.DEVNULL)
+repo = sys.argv[1] if len(sys.argv) > 1 else '/repo'      # optional: a scratch worktree
+env = dict(os.environ); env.pop('PJRPC_VERIF', None); env['PYTHONPATH'] = repo
+subprocess.run(f'cd {repo} && /venv/bin/python -m pytest -ra -q -p no:cacheprovider --timeout=900 --continue-on-collection-errors --junitxml={path}', shell=True, env=env, stdout=subprocess.DEVNULL, stderr=subprocess.DEVNULL)
 passed = set()
 for tc in ET.parse(path).getroot().iter('testcase'):
     if not any(c.tag in ('failure', 'error', 'skipped') for c in tc):
